@@ -160,6 +160,20 @@ static void ref_leaf(int i, const leafspec *sp, int leaf_alg, rnode *out) {
 	}
 }
 
+/* a metadata leaf that cannot be hashed: client id and machine id together exceed what one TLV holds */
+static KSI_MetaData *make_unhashable_meta(void) {
+	KSI_MetaData *m = NULL;
+	KSI_Utf8String *s = NULL;
+	static char big[40001];
+	memset(big, 'a', 40000); big[40000] = 0;
+	if (KSI_MetaData_new(ctx, &m) != KSI_OK) vf_harness_error("KSI_MetaData_new");
+	if (KSI_Utf8String_new(ctx, big, 40001, &s) != KSI_OK || KSI_MetaData_setClientId(m, s) != KSI_OK) vf_harness_error("big client id");
+	KSI_Utf8String_free(s); s = NULL;
+	if (KSI_Utf8String_new(ctx, big, 40001, &s) != KSI_OK || KSI_MetaData_setMachineId(m, s) != KSI_OK) vf_harness_error("big machine id");
+	KSI_Utf8String_free(s);
+	return m;
+}
+
 static KSI_MetaData *make_meta(int i) {
 	KSI_MetaData *m = NULL;
 	KSI_Utf8String *s = NULL;
@@ -306,13 +320,26 @@ static void seq_body(const leafspec *sp, int n, int maxlevel, int alg, int leaf_
 	for (i = 0; i < n; i++) {
 		enum { E_ACCEPT, E_BAD, E_MAX, E_OVF } exp;
 		int lvl = sp[i].level, cfd = -1, cl = 0, ok;
-		ref_leaf(i, &sp[i], leaf_alg, &st.leaf[i]);
-		if (lvl < 0 || lvl > 255) exp = E_BAD;
+		if (sp[i].meta != 2) ref_leaf(i, &sp[i], leaf_alg, &st.leaf[i]);
+		if (sp[i].meta == 2) exp = E_ACCEPT;
+		else if (lvl < 0 || lvl > 255) exp = E_BAD;
 		else {
 			rf_probe(&F, lvl, &cfd, &cl);
 			if (maxlevel > 0 && (cfd >= 0 || cl > maxlevel)) exp = E_MAX;
 			else if (cfd >= 0 || cl > 255) exp = E_OVF;
 			else exp = E_ACCEPT;
+		}
+		if (sp[i].meta == 2) {
+			/* a leaf that cannot be hashed, offered where it would have to be joined with its left neighbour at once: if it is refused,
+			 * the tree is the tree of the other leaves; if it is taken, the reference has no tree for the rest */
+			st.md[i] = make_unhashable_meta();
+			res = KSI_TreeBuilder_addMetaData(b, st.md[i], lvl, &st.h[i]);
+			COUNT("impl_calls", 1);
+			vf_obs("a%d:%d", i, res == KSI_OK);
+			if (res != KSI_OK && st.h[i] != NULL) FAIL("handle-on-refusal", "leaf #%d refused (0x%x) but a handle was returned", i, res);
+			if (res == KSI_OK) { OUTCOME("leaf:unhashable-accepted"); st.acc[i] = 0; desync = 1; KSI_TreeLeafHandle_free(st.h[i]); st.h[i] = NULL; }
+			else { OUTCOME("leaf:refused-unhashable"); nrefused++; }
+			continue;
 		}
 		if (sp[i].meta) {
 			st.md[i] = make_meta(i);
@@ -566,7 +593,7 @@ static void seq_name(char *out, size_t cap, const leafspec *sp, int n) {
 	size_t o = 0;
 	int i;
 	out[0] = 0;
-	for (i = 0; i < n && o + 12 < cap; i++) o += (size_t)snprintf(out + o, cap - o, "%s%d%s", i ? "." : "", sp[i].level, sp[i].meta ? "m" : "");
+	for (i = 0; i < n && o + 12 < cap; i++) o += (size_t)snprintf(out + o, cap - o, "%s%d%s", i ? "." : "", sp[i].level, sp[i].meta == 2 ? "U" : sp[i].meta ? "m" : "");
 }
 
 /* (u) uniform level: all leaf counts */
@@ -649,6 +676,124 @@ static void part_meta(void) {
 				run_seq(sp, len, MM[mi], RH_SHA256, RH_SHA256);
 			}
 		}
+	}
+}
+
+/* (h) a leaf that cannot be hashed (metadata too large for one TLV), offered after an odd number of level-0 leaves (so that it would have
+ * to be joined at once), followed by 0..3 further leaves: the refusal leaves the tree of the other leaves */
+static void part_unhashable(void) {
+	int before, after, mm;
+	for (before = 1; before <= (VF_THOROUGH ? 15 : 7); before += 2) for (after = 0; after <= 3; after++) for (mm = 0; mm < 2; mm++) {
+		leafspec sp[24];
+		char name[120];
+		int i, n = 0;
+		for (i = 0; i < before; i++) { sp[n].level = 0; sp[n].meta = (mm && i == before - 1) ? 1 : 0; n++; }
+		sp[n].level = 0; sp[n].meta = 2; n++;
+		for (i = 0; i < after; i++) { sp[n].level = 0; sp[n].meta = 0; n++; }
+		seq_name(name, sizeof name, sp, n);
+		if (!vf_case_begin("h:%d+U+%d:%s", before, after, mm ? "meta-neighbour" : "hash-neighbour")) continue;
+		seq_body(sp, n, 0, RH_SHA256, RH_SHA256);
+		vf_case_end(1);
+	}
+}
+
+/* (p) leaf processors (the public mechanism the block signer uses for its metadata and masking siblings): "tag" and "blind" add a hash
+ * sibling each, "quota" refuses one chosen leaf after the siblings were made. Every combination of tag / blind, every refused position
+ * (or none), 1..5 level-0 leaves. The refusal must leave the tree of the other leaves (with their siblings); proofs of all accepted
+ * leaves are recomputed. */
+typedef struct { int on; unsigned base; } pr_sib_t;
+typedef struct { int refuse_at; } pr_quota_t;
+static int g_pr_leaf;
+static int pr_sibling(KSI_TreeNode *in, void *c, KSI_TreeNode **out) {
+	pr_sib_t *p = (pr_sib_t *)c;
+	unsigned char imp[RH_MAX_IMPRINT];
+	size_t n;
+	KSI_DataHash *h = NULL;
+	int res;
+	*out = NULL;
+	if (!p->on) return KSI_OK;
+	n = ref_fake_imprint(RH_SHA256, p->base + (unsigned)g_pr_leaf, imp);
+	res = KSI_DataHash_fromImprint(ctx, imp, n, &h);
+	if (res != KSI_OK) return res;
+	res = KSI_TreeNode_new(ctx, h, NULL, (int)in->level, out);
+	KSI_DataHash_free(h);
+	return res;
+}
+static int pr_quota(KSI_TreeNode *in, void *c, KSI_TreeNode **out) {
+	(void)in;
+	*out = NULL;
+	return g_pr_leaf == ((pr_quota_t *)c)->refuse_at ? KSI_SERVICE_AGGR_REQUEST_OVER_QUOTA : KSI_OK;
+}
+static void part_processors(void) {
+	int tag, blind, n, refuse, order;
+	for (tag = 0; tag < 2; tag++) for (blind = 0; blind < 2; blind++) for (order = 0; order < 2; order++) for (n = 1; n <= (VF_THOROUGH ? 7 : 5); n++) for (refuse = -1; refuse < n; refuse++) {
+		static seqstate st;
+		static leafspec sp[8];
+		long base;
+		KSI_TreeBuilder *b = NULL;
+		KSI_TreeBuilderLeafProcessor ptag, pblind, pquota;
+		pr_sib_t ctag, cblind;
+		pr_quota_t cq;
+		rforest F;
+		rnode R;
+		int i, res, nacc = 0;
+		if (!vf_case_begin("p:tag%d:blind%d:%s:n%d:refuse%d", tag, blind, order ? "quota-first" : "quota-last", n, refuse)) continue;
+		base = vf_alloc_live;
+		memset(&st, 0, sizeof st); memset(sp, 0, sizeof sp);
+		F.n = 0;
+		st.n = n; st.alg = RH_SHA256; st.sp = sp;
+		if (KSI_TreeBuilder_new(ctx, KSI_HASHALG_SHA2_256, &b) != KSI_OK) vf_harness_error("KSI_TreeBuilder_new");
+		ctag.on = tag; ctag.base = 1000; cblind.on = blind; cblind.base = 2000; cq.refuse_at = refuse;
+		memset(&ptag, 0, sizeof ptag); memset(&pblind, 0, sizeof pblind); memset(&pquota, 0, sizeof pquota);
+		ptag.fn = pr_sibling; ptag.c = &ctag; ptag.levelOverhead = 1;
+		pblind.fn = pr_sibling; pblind.c = &cblind; pblind.levelOverhead = 1;
+		pquota.fn = pr_quota; pquota.c = &cq; pquota.levelOverhead = 0;
+		if (order && KSI_TreeBuilderLeafProcessorList_append(b->cbList, &pquota) != KSI_OK) vf_harness_error("processor list");
+		if (KSI_TreeBuilderLeafProcessorList_append(b->cbList, &ptag) != KSI_OK || KSI_TreeBuilderLeafProcessorList_append(b->cbList, &pblind) != KSI_OK) vf_harness_error("processor list");
+		if (!order && KSI_TreeBuilderLeafProcessorList_append(b->cbList, &pquota) != KSI_OK) vf_harness_error("processor list");
+		for (i = 0; i < n; i++) {
+			rnode eff, sib, t;
+			ref_leaf(i, &sp[i], RH_SHA256, &st.leaf[i]);
+			if (KSI_DataHash_fromImprint(ctx, st.leaf[i].b, st.leaf[i].n, &st.dh[i]) != KSI_OK) vf_harness_error("KSI_DataHash_fromImprint");
+			g_pr_leaf = i;
+			res = KSI_TreeBuilder_addDataHash(b, st.dh[i], 0, &st.h[i]);
+			COUNT("impl_calls", 1);
+			vf_obs("a%d:%x", i, res);
+			if (i == refuse) {
+				if (res == KSI_OK) FAIL("refused-leaf-accepted", "leaf #%d: a leaf processor refused it but the add call succeeded", i);
+				if (st.h[i] != NULL) FAIL("handle-on-refusal", "leaf #%d refused (0x%x) but a handle was returned", i, res);
+				OUTCOME("leaf:refused-by-processor:%d-siblings-made", order ? 0 : tag + blind);
+				if (res == KSI_OK) { st.acc[i] = 0; KSI_TreeLeafHandle_free(st.h[i]); st.h[i] = NULL; }
+				continue;
+			}
+			if (res != KSI_OK) { FAIL("valid-leaf-refused", "leaf #%d with %d processor sibling(s): refused 0x%x", i, tag + blind, res); continue; }
+			st.acc[i] = 1; nacc++;
+			eff = st.leaf[i];
+			memset(&sib, 0, sizeof sib);
+			if (tag) { sib.n = ref_fake_imprint(RH_SHA256, 1000u + (unsigned)i, sib.b); sib.level = eff.level; sib.cnt = 0; if (rn_merge(RH_SHA256, &sib, &eff, &t) != 0) vf_harness_error("merge"); eff = t; }
+			if (blind) { sib.n = ref_fake_imprint(RH_SHA256, 2000u + (unsigned)i, sib.b); sib.level = eff.level; sib.cnt = 0; if (rn_merge(RH_SHA256, &sib, &eff, &t) != 0) vf_harness_error("merge"); eff = t; }
+			if (rf_add(&F, RH_SHA256, &eff) != 0) vf_harness_error("reference forest");
+		}
+		res = KSI_TreeBuilder_close(b);
+		COUNT("impl_calls", 1);
+		if (nacc == 0) OUTCOME("close:empty:%s", res == KSI_OK ? "ok" : "err");
+		else if (res != KSI_OK || b->rootNode == NULL || b->rootNode->hash == NULL) FAIL("close-failed", "close failed with 0x%x although %d leaves were accepted", res, nacc);
+		else if (rf_close(&F, RH_SHA256, &R) != 0) vf_harness_error("reference close");
+		else {
+			const unsigned char *rp = NULL;
+			size_t rl = 0;
+			if (KSI_DataHash_getImprint(b->rootNode->hash, &rp, &rl) != KSI_OK) vf_harness_error("root imprint unreadable");
+			if ((int)b->rootNode->level != R.level || rl != R.n || memcmp(rp, R.b, rl) != 0) { OUTCOME("root:NOT-CANONICAL"); FAIL("root-not-canonical", "%d accepted leaves with %d processor sibling(s) each, leaf #%d refused: canonical merge gives level %d root %s, builder root level %d %s", nacc, tag + blind, refuse, R.level, vf_hex(R.b, R.n), (int)b->rootNode->level, vf_hex(rp, rl)); }
+			else OUTCOME(refuse >= 0 ? "root:canonical-after-refusal" : "root:canonical");
+			for (i = 0; i < n; i++) if (st.acc[i] && st.h[i] != NULL) check_proof(&st, i, rp, rl, (int)b->rootNode->level);
+		}
+		for (i = 0; i < n; i++) KSI_TreeLeafHandle_free(st.h[i]);
+		/* the processors live on this stack frame: take them out of the list before the builder frees it */
+		while (KSI_TreeBuilderLeafProcessorList_length(b->cbList) > 0) { KSI_TreeBuilderLeafProcessor *x = NULL; KSI_TreeBuilderLeafProcessorList_remove(b->cbList, 0, &x); }
+		KSI_TreeBuilder_free(b);
+		for (i = 0; i < n; i++) KSI_DataHash_free(st.dh[i]);
+		if (vf_alloc_live != base) { OUTCOME("mem:LEAK"); FAIL("leak", "%ld SDK blocks still live after freeing handles, builder and leaves (%d leaves, leaf #%d refused by a processor after %d sibling(s))", vf_alloc_live - base, n, refuse, order ? 0 : tag + blind); }
+		vf_case_end(1);
 	}
 }
 
@@ -760,6 +905,8 @@ static void run(void) {
 	part_badlevel();
 	part_mixed();
 	part_meta();
+	part_unhashable();
+	part_processors();
 	if (0) part_blocksigner();
 	KSI_CTX_free(ctx);
 }
